@@ -4,6 +4,7 @@ import (
 	"verif/checks/c01"
 	"verif/checks/c02"
 	"verif/checks/c03"
+	"verif/checks/c04"
 	"verif/checks/c05"
 )
 
@@ -11,5 +12,6 @@ func init() {
 	registry["C01"] = c01.Run
 	registry["C02"] = c02.Run
 	registry["C03"] = c03.Run
+	registry["C04"] = c04.Run
 	registry["C05"] = c05.Run
 }
